@@ -695,6 +695,8 @@ func (runInfo *runInfoStruct) runReturnStmt(stmt *ast.ReturnStmt) {
 	case 1:
 		runInfo.expr = stmt.Exprs[0]
 		runInfo.invokeExpr()
+		// the result is the value now, not whatever a deferred call leaves in that slot
+		runInfo.rv = detachValue(runInfo.rv)
 		return
 	}
 	rvs := make([]interface{}, len(stmt.Exprs))
